@@ -84,6 +84,11 @@ type c29Peer struct {
 	mode    atomic.Value // string
 	release atomic.Value // chan struct{}
 	held    atomic.Int64 // requests currently parked in script hold
+	// health pings (GET /services/up): the next pingFail pings fail in the way pingKind says
+	pingFail  atomic.Int64
+	pingKind  atomic.Value // "503" | "close" | "timeout"
+	pingsOK   atomic.Int64
+	pingsBad  atomic.Int64
 	log     *c29Log
 }
 
@@ -126,6 +131,12 @@ func (l *c29Log) since(mark int64) []c29Msg {
 }
 
 func (p *c29Peer) ServeHTTP(w http.ResponseWriter, r *http.Request) {
+	if r.URL.Path == "/services/up" {
+		p.servePing(w, r)
+
+		return
+	}
+
 	body, _ := io.ReadAll(r.Body)
 	m := c29Msg{Peer: p.idx, Method: r.Method, Path: r.URL.Path, Auth: r.Header.Get("Authorization"), Raw: string(body)}
 
@@ -275,14 +286,36 @@ func (e *c29Env) quiesce() bool {
 	}
 }
 
+// writeRows rewrites the membership table. The health checker (when running) writes the same
+// database through pooled connections that carry no busy timeout, so a busy database is retried.
 func (e *c29Env) writeRows(rows []c29Row) {
-	tx, err := systemDB.Begin()
-	if err != nil {
-		e.t.Fatalf("begin: %v", err)
+	var err error
+
+	for attempt := 0; attempt < 400; attempt++ {
+		if err = e.writeRowsOnce(rows); err == nil {
+			return
+		}
+
+		if !strings.Contains(err.Error(), "locked") && !strings.Contains(err.Error(), "BUSY") {
+			break
+		}
+
+		time.Sleep(5 * time.Millisecond)
 	}
 
+	e.t.Fatalf("write membership table: %v", err)
+}
+
+func (e *c29Env) writeRowsOnce(rows []c29Row) error {
+	tx, err := systemDB.Begin()
+	if err != nil {
+		return fmt.Errorf("begin: %v", err)
+	}
+
+	defer func() { _ = tx.Rollback() }()
+
 	if _, err := tx.Exec(`DELETE FROM cluster`); err != nil {
-		e.t.Fatalf("reset cluster table: %v", err)
+		return fmt.Errorf("reset cluster table: %v", err)
 	}
 
 	rel := make(chan struct{})
@@ -309,13 +342,15 @@ func (e *c29Env) writeRows(rows []c29Row) {
 
 		if _, err := tx.Exec(`INSERT INTO cluster (name, node_id, host, port, scheme, joined_at, last_seen, state) VALUES (?,?,?,?,?,?,?,?)`,
 			row.Cluster, row.NodeID, "127.0.0.1", port, "http", ts, ts, row.State); err != nil {
-			e.t.Fatalf("insert row: %v", err)
+			return fmt.Errorf("insert row: %v", err)
 		}
 	}
 
 	if err := tx.Commit(); err != nil {
-		e.t.Fatalf("commit: %v", err)
+		return fmt.Errorf("commit: %v", err)
 	}
+
+	return nil
 }
 
 func (e *c29Env) releaseHangs() {
@@ -854,6 +889,8 @@ func TestVerifC29Node(t *testing.T) {
 			e.runOverlap(c)
 		case "join", "leave":
 			e.runMembership(c)
+		case "ping-failed", "evicted":
+			e.runHealthHistories(vh.Rand("c29-node-replay"), []int{c.CacheID})
 		default:
 			e.runOrigin(c)
 		}
@@ -906,6 +943,7 @@ func TestVerifC29Node(t *testing.T) {
 	}
 
 	e.runHistories(rng, cacheIDs)
+	e.runHealthHistories(rng, cacheIDs)
 
 	tokens := []string{"valid", "valid", "valid", "none", "wrong", "othercluster", "truncated"}
 	for i := 0; i < nRecv; i++ {
